@@ -153,9 +153,19 @@ def gen(rng, prop, tier):
             c = cfg['probes'][rng.randrange(1, k)]
             c['ns'] = rng.choice([8200, 16400, 17000])
             c['ties'] = True
+        if prop in ('C11', 'C12') and rng.random() < 0.1:
+            # a dead / saturated channel in the LAST template of a probe (NaN or inf everywhere)
+            c = cfg['probes'][rng.randrange(k)]
+            c['poison'].append({'name': 'tmpl', 'kind': 'nan_column', 't': c['nt'] - 1,
+                                'ch': rng.randrange(c['nc']),
+                                'val': rng.choice(['nan', 'inf', '-inf'])})
         ops = [{'op': 'merge'}]
+        if rng.random() < 0.15:
+            # history: every probe folder was opened (and closed) once before the merge; loading
+            # leaves an inverse whitening matrix behind in each of them
+            ops.insert(0, {'op': 'open_probes'})
         if rng.random() < 0.12:
-            ops[0]['stale_output'] = rng.choice(['templates', 'more'])
+            ops[-1]['stale_output'] = rng.choice(['templates', 'more'])
         if rng.random() < 0.2:
             ops.append({'op': 'merge_again'})   # the same Merger instance run a second time
         if prop in ('C13', 'C14'):
@@ -383,6 +393,8 @@ class Probe(object):
                     continue
                 if field == 'KSLabel':
                     vals[int(c)] = ['good', 'mua'][int(rs.randint(0, 2))]
+                    if rs.rand() < 0.06:
+                        vals[int(c)] = ''       # a row whose value cell is empty
                 elif field == 'ContamPct':
                     vals[int(c)] = [int(rs.randint(0, 100)), float(np.round(rs.rand() * 100, 1)),
                                     0.0, 0][int(rs.randint(0, 4))]
@@ -592,7 +604,8 @@ def check_merge_structure(ctx, probes, out, model, offs):
                       lambda: {'probe': i, 'template': t, 'row': row})
             exp = np.zeros((T.shape[1], T.shape[2]), dtype=T.dtype)
             exp[:, c0[i]:c0[i + 1]] = p.g.tmpl_data[t]
-            ctx.check(_aeq(T[row], exp), 'template-not-at-offset-index-on-its-probe-block',
+            ctx.check(T[row].shape == exp.shape and bool(np.array_equal(T[row], exp, equal_nan=True)),
+                      'template-not-at-offset-index-on-its-probe-block',
                       lambda: {'probe': i, 'template': t, 'row': int(row),
                                'nonzero_cols': np.nonzero(np.any(T[row] != 0, axis=0))[0].tolist(),
                                'expected_cols': [int(c0[i]), int(c0[i + 1])]})
@@ -612,7 +625,8 @@ def check_merge_structure(ctx, probes, out, model, offs):
     for name, attr, pres in (('whitening_mat.npy', 'wm', 'wm'),
                              ('whitening_mat_inv.npy', 'wmi_file', 'wmi'),
                              ('similar_templates.npy', 'similar', 'similar')):
-        have = [p.cfg['present'][pres] for p in probes]
+        have = [(p.dir / name).exists() for p in probes]   # (a probe folder opened before the
+        #                                  merge has been given its inverse whitening matrix)
         if all(have):
             ctx.probe('matrix_in_all')
             ctx.check((out / name).exists(), 'merged-matrix-missing', lambda: {'file': name})
@@ -1039,7 +1053,15 @@ def run_ops(plan, ctx, cfg):
 
     for step, op in enumerate(plan['ops']):
         k = op['op']
-        if k in ('merge', 'merge_again'):
+        if k == 'open_probes':
+            if probes is None:
+                continue
+            for p in probes:
+                m0 = ctx.real('load', load_model, p.dir / 'params.py', owners=('C04',))
+                m0.close()
+            ctx.op('open_probes')
+            ctx.probe('probe_folders_opened_before_the_merge')
+        elif k in ('merge', 'merge_again'):
             if probes is None:
                 continue
             if k == 'merge_again' and merger is None:
